@@ -25,6 +25,9 @@ var knownAPI = map[string]bool{
 var mainType = map[string]string{"20": "CVSS20", "30": "CVSS30", "31": "CVSS31", "40": "CVSS40"}
 
 func basicConv(t types.Type, arg string) (string, bool) {
+	if it, ok := t.Underlying().(*types.Interface); ok && it.Empty() {
+		return "extraAny(&in, " + arg + ")", true // string, caller-owned []byte, number or nil
+	}
 	if sl, ok := t.Underlying().(*types.Slice); ok {
 		if eb, ok := sl.Elem().Underlying().(*types.Basic); ok && eb.Kind() == types.Byte {
 			return "extraBytes(&in, " + arg + ")", true // a fresh buffer owned by the caller
@@ -78,6 +81,10 @@ func genExtraAPI(pkgs map[string]*types.Package) (string, int) {
 				}
 				args = append(args, c)
 				b, isBasic := sig.Params().At(i).Type().Underlying().(*types.Basic)
+				if _, isIface := sig.Params().At(i).Type().Underlying().(*types.Interface); isIface {
+					kinds = append(kinds, "any")
+					continue
+				}
 				if !isBasic {
 					kinds = append(kinds, "bytes")
 					continue
